@@ -58,6 +58,33 @@ def case_for(seed, stream, idx, tier):
         # copy uses for its URI (the left root's prefix if it declares the URI, else the right root's)
         L, R = gen.ns_pair(r, maxn)
         opts = gen.rand_opts(r)
+    elif stream == "emptytext":
+        # texts and tails that are the empty string (what lxml reports for an empty CDATA section, and what the API can
+        # set) at the same places of both documents, next to ordinary differences elsewhere: nothing is to be done about
+        # them (C17: an action that sets "" where "" is changes nothing)
+        L = gen.rand_tree(r, maxn)
+        L.tail = None
+        for n in L.iter():
+            if n.kind == "e" and n.text is None and r.random() < 0.4:
+                n.text = ""
+            if n is not L and n.tail is None and r.random() < 0.3:
+                n.tail = ""
+        L = L.number(0)
+        R = L.copy()
+        for n in list(R.iter()):
+            m = r.random()
+            if m < 0.25 and n.kind == "e":
+                n.attrs = [(k, v) for k, v in n.attrs if k != "k"] + [("k", r.choice(["7", "8"]))]
+            elif m < 0.35 and n.kind == "e":
+                n.kids.append(xt.PNode("e", r.choice(gen.TAGS), [], r.choice(["new", None]), None))
+            elif m < 0.45 and n.kind == "e" and n is not R:
+                n.tag = r.choice(gen.TAGS)
+            elif m < 0.5 and n.text:
+                n.text = n.text + " more"
+        if r.random() < 0.3 and len(R.kids) >= 2:
+            R.kids[0], R.kids[-1] = R.kids[-1], R.kids[0]
+        R = R.number(1000)
+        opts = gen.rand_opts(r)
     elif stream == "near":
         # C03, converse direction with a minimal difference: a copy with exactly one primitive change
         L = gen.dup_heavy_tree(r, maxn) if r.random() < 0.4 else gen.rand_tree(r, maxn)
@@ -309,6 +336,24 @@ def run_cases(seed, lo, hi, extra):
             c["final"] = rd.final_left()
             c["diff_exc"] = None
             c["reuse"] = None
+            if idx % 5 == 2 and not nsq:
+                # the same pair with the right tree given as an element inside a larger document (following siblings, a
+                # comment after it): the differ compares the two trees it is given, nothing around them
+                st.count("right_tree_embedded")
+                d_ = {"stream": stream, "idx": idx, "left": xt.to_xml(L), "right": xt.to_xml(R), "options": repr(opts)}
+                try:
+                    re_ = real.RealDiff(L, R, opts, embed=True)
+                    c["keep_embedded"] = re_
+                    me = re_.match()
+                    se = [a for a in re_.script() if type(a).__name__ not in ("InsertNamespace", "DeleteNamespace")]
+                    if any(a == -1 or b == -1 for a, b in me):
+                        st.failures.append({"prop": "C07", "sig": "C07/foreign-node/right-tree-inside-a-larger-document", **d_})
+                    elif me != c["match"]:
+                        st.failures.append({"prop": "C07", "sig": "C07/matching-depends-on-what-surrounds-the-right-tree", **d_})
+                    elif xt.enc_script(se) != xt.enc_script(c["script"]):
+                        st.failures.append({"prop": "C06", "sig": "C06/script-depends-on-what-surrounds-the-right-tree", **d_})
+                except Exception as e:  # noqa
+                    st.failures.append({"prop": "C07", "sig": f"C07/right-tree-inside-a-larger-document-raises/{real.exc_sig(e)}", **d_})
             if idx % 4 == 0 and not nsq:
                 # the same Differ asked again about the same tree objects (set_trees / match / diff on a used instance)
                 try:
@@ -534,6 +579,28 @@ def run_cases(seed, lo, hi, extra):
                     st.failures.append({"prop": "C13", "sig": "C13/ignored-only-differences-nonempty-script/differ-used-before", **desc})
             except Exception as e:  # noqa
                 st.failures.append({"prop": "C13", "sig": f"C13/differ-used-before-raises/{real.exc_sig(e)}", **desc})
+            # the list reaches the Differ after construction: assigned to the public attribute, or the list object the
+            # constructor was given is filled afterwards - what is ignored is what the list says when the diff runs
+            st.count("ignored_list_set_after_construction")
+            try:
+                from xmldiff import diff as _diffm2
+
+                o_ = {k_: v_ for k_, v_ in opts.items() if k_ != "ignored_attrs"}
+                for how in ("assigned", "list-filled-later"):
+                    if how == "assigned":
+                        d2_ = _diffm2.Differ(**o_)
+                        d2_.ignored_attrs = list(ign)
+                    else:
+                        names_ = []
+                        d2_ = _diffm2.Differ(ignored_attrs=names_, **o_)
+                        names_.extend(ign)
+                    s_ = [a for a in d2_.diff(xt.to_lxml(L), xt.to_lxml(R)) if type(a).__name__ not in ("InsertNamespace", "DeleteNamespace")]
+                    if ignored_named(s_, set(ign)):
+                        st.failures.append({"prop": "C13", "sig": "C13/action-names-ignored-attribute/" + how, **desc})
+                    if eq and s_:
+                        st.failures.append({"prop": "C13", "sig": "C13/ignored-only-differences-nonempty-script/" + how, **desc})
+            except Exception as e:  # noqa
+                st.failures.append({"prop": "C13", "sig": f"C13/ignored-list-after-construction-raises/{real.exc_sig(e)}", **desc})
         # C04 / C05 / C17 via the strict replay of the real script
         # replay answer: "ok <flags> | <tree>" or "err k Err"
         if m_replay.startswith("err "):
